@@ -34,12 +34,19 @@ def load_corpus(pid):
 
 
 def parse_ops_file(path, prefix=""):
-    hs, cur = [], None
+    hs, cur, meta = [], None, {}
     for line in open(path):
         line = line.rstrip("\n")
+        if line.startswith("#meta "):
+            try:
+                meta = json.loads(line[6:])
+            except ValueError:
+                meta = {}
+            continue
         if line.startswith("H "):
             p = line.split()
-            cur = History(prefix + p[1], int(p[2]), [])
+            cur = History(prefix + p[1], int(p[2]), [], dict(meta))
+            meta = {}
             hs.append(cur)
         elif cur is not None and line.strip() and not line.startswith("#"):
             cur.ops.append(line)
@@ -56,6 +63,14 @@ def write_replay(pid, seed, kind, h, detail):
             for ln in str(v).split("\n"):
                 f.write("# %s: %s\n" % (k, ln))
         if h is not None:
+            meta = {}
+            for k, v in (h.meta or {}).items():
+                try:
+                    json.dumps(v)
+                    meta[k] = v
+                except (TypeError, ValueError):
+                    pass
+            f.write("#meta %s\n" % json.dumps(meta))
             f.write(h.text())
     return path
 
@@ -90,7 +105,7 @@ def linearise(h, index, prop, want):
 def shrink(h, prop, want):
     """delta debugging on the op list; `want(cmp, finding)` says whether a
     candidate still shows the failure"""
-    if len(h.ops) > 5000:
+    if len(h.ops) > 5000 or not prop.shrink_ok:
         return h
     ops = list(h.ops)
     budget = 400
@@ -155,7 +170,9 @@ def main():
         hs = parse_ops_file(replay)
         for h in hs:
             cmp_, finding, il, ml = run_one(h, prop)
-            print("history %s: correspondence=%s oracle=%s" % (h.hid, cmp_["status"], finding))
+            print("history %s (%d calls): correspondence=%s oracle=%s" % (h.hid, len(h.ops), cmp_["status"],
+                  "ok" if finding is None else "%s (at call %s; expected %s; observed %s)" % (
+                      finding.get("reason"), finding.get("index"), str(finding.get("expected"))[:200], str(finding.get("observed"))[:200])))
             for i, (a, b) in enumerate(zip(ml, il)):
                 if a != b:
                     print("  first differing line %d:\n   model: %s\n   impl : %s" % (i, a[:400], b[:400]))
